@@ -265,6 +265,14 @@ def seed():
 
 
 def workdir(prop):
+    """Per-run scratch directory under /verif/.work (removed by Check.finish); stale directories of runs of the same
+    property whose process is gone are removed first."""
+    import shutil
+    os.makedirs(WORK_ROOT, exist_ok=True)
+    for name in os.listdir(WORK_ROOT):
+        m = re.match(r'^%s_(\d+)$' % re.escape(prop), name)
+        if m and not os.path.exists('/proc/%s' % m.group(1)):
+            shutil.rmtree(os.path.join(WORK_ROOT, name), ignore_errors=True)
     d = os.path.join(WORK_ROOT, '%s_%d' % (prop, os.getpid()))
     os.makedirs(d, exist_ok=True)
     return d
